@@ -54,7 +54,7 @@ def run(ctx):
                 ctx.report("C13-fresh-env", "child", "the library environment is created as a child of another scope",
                            where_of(eld, t))
         if n_env_uses < 2:
-            ctx.report("C13-fresh-env", "floor", "expected the import and the begin declarations to be evaluated here", where_of(eld))
+            ctx.undecided("C13-fresh-env", "floor", "expected the import and the begin declarations to be evaluated here", where_of(eld))
     ctx.guarded('C13-fresh-env', d_def >= 2, _old_env)
 
     # ------------------------------------------------------------------ C13-exports-only
